@@ -46,6 +46,7 @@ from .mbox import Mailbox, NoSuchMailbox
 from .mh import MH
 from .parse import BadCommand, IMAPClientCommand
 from .trace import toggle_trace, trace
+from .utils import one_line
 
 if TYPE_CHECKING:
     from _typeshed import StrPath
@@ -281,7 +282,8 @@ class IMAPClientProxy:
                         await self.push("+ idling\r\n")
                     elif ls_imap_msg != "done":
                         await self.push(
-                            f"* NO Expected 'DONE' not: {imap_msg}\r\n"
+                            "* NO Expected 'DONE' not: "
+                            f"{one_line(imap_msg)}\r\n"
                         )
                     else:
                         await self.cmd_processor.do_done()
@@ -299,9 +301,11 @@ class IMAPClientProxy:
                     #
                     logger.debug("*** Bad command! '%s'", imap_msg)
                     if imap_cmd.tag is not None:
-                        await self.push(f"{imap_cmd.tag} BAD {e}\r\n")
+                        await self.push(
+                            f"{imap_cmd.tag} BAD {one_line(str(e))}\r\n"
+                        )
                     else:
-                        await self.push(f"* BAD {e}\r\n")
+                        await self.push(f"* BAD {one_line(str(e))}\r\n")
                     continue
 
                 # Pass the command on to the command processor to handle.
